@@ -14,6 +14,8 @@ import (
 	"github.com/nspcc-dev/neo-go/pkg/core/native"
 	"github.com/nspcc-dev/neo-go/pkg/core/state"
 	"github.com/nspcc-dev/neo-go/pkg/core/storage"
+	"github.com/nspcc-dev/neo-go/pkg/vm"
+	"github.com/nspcc-dev/neo-go/pkg/vm/opcode"
 )
 
 // DumpContract is one contract of a recorded network dump.
@@ -81,6 +83,12 @@ func LoadDump(prefix string) *Dump {
 // and storages) before the chain starts; `mutate`, if given, may edit the
 // storages first (seeded perturbations in the old layouts).
 func NewDumpWorld(n int, label string, d *Dump, mutate func(name string, kvs []KV) []KV) *World {
+	return NewDumpWorldPatched(n, label, d, mutate, nil)
+}
+
+// NewDumpWorldPatched is NewDumpWorld with a hook that may edit a dumped
+// contract state (its executable) before it is stored.
+func NewDumpWorldPatched(n int, label string, d *Dump, mutate func(name string, kvs []KV) []KV, patch func(name string, st *state.Contract)) *World {
 	prep := func(low storage.Store) {
 		cached := storage.NewMemCachedStore(low)
 		_dao := dao.NewSimple(low, false)
@@ -89,6 +97,9 @@ func NewDumpWorld(n int, label string, d *Dump, mutate func(name string, kvs []K
 		for _, c := range d.Contracts {
 			st := c.State
 			st.UpdateCounter = 0
+			if patch != nil {
+				patch(c.Name, &st)
+			}
 			must(native.PutContractState(_dao, &st))
 			kvs := c.Storage
 			if mutate != nil {
@@ -116,4 +127,29 @@ func NewDumpWorld(n int, label string, d *Dump, mutate func(name string, kvs []K
 		w.C[c.Name] = &Deployed{Name: c.Name, Hash: c.State.Hash, ID: c.State.ID, Manifest: &cs.Manifest}
 	}
 	return w
+}
+
+// PatchVersionConstant rewrites every PUSHINT16 `from` of a script into
+// PUSHINT16 `to` (instruction lengths and jump offsets stay as they are) and
+// returns how many were rewritten. Used to make a recorded old executable
+// report — and hand to _deploy on update — another supported version number.
+func PatchVersionConstant(script []byte, from, to int64) ([]byte, int) {
+	if from < 0 || from > 32767 || to < 0 || to > 32767 {
+		return script, 0
+	}
+	out := append([]byte(nil), script...)
+	c := vm.NewContext(script)
+	n := 0
+	for c.NextIP() < len(script) {
+		ip := c.NextIP()
+		op, prm, err := c.Next()
+		if err != nil {
+			return script, 0
+		}
+		if op == opcode.PUSHINT16 && len(prm) == 2 && int64(int16(binary.LittleEndian.Uint16(prm))) == from {
+			binary.LittleEndian.PutUint16(out[ip+1:], uint16(to))
+			n++
+		}
+	}
+	return out, n
 }
